@@ -41,6 +41,12 @@ def jobs(tier):
                                   "_vnacal_new_solve_next_term"],
                        bound="%s 2x2, two over-determined systems with unknowns+1 and unknowns+2 equations, all measurements 1" % t,
                        timeout=400))
+        J.append(V.Job("simple_iteration_mixed.%s" % t[7:], H, "h_simple_weight_index", s3,
+                       strip={"vnacal_new_solve.c": ["_vnacal_new_solve_calc_weights"]},
+                       defines=d + ["-DOVERDETERMINED", "-DMIXED"], unwind=16, union_struct=True, kind="bounded", canary=False,
+                       functions=["_vnacal_new_solve_simple (V-matrix iteration across systems)"],
+                       bound="%s 2x2, first system exactly determined, second over-determined (unknowns+2 equations), all measurements 1" % t,
+                       timeout=400))
     for t in (["VNACAL_UE14", "VNACAL_T8"] if tier == "quick" else types):
         d = C20.CUT + ["-DCAL_TYPE=%s" % t, "-DH_PVALUE", "-DVERIF_CUT_pvalue_before_chisq=__CPROVER_assume(0)"]
         J.append(V.Job("pvalue_variance.%s" % t[7:], H, "h_pvalue_variance", srcs, defines=d, unwind=16, union_struct=True,
